@@ -486,6 +486,8 @@ def systematic_utp_class(ctx):
 def dispatch(ctx, case):
     if case.get('op') == 'utpclass':
         return utp_class_fails(case)
+    if case.get('op') == 'intarr-pow':
+        return intarr_pow_fails(case)
     if case.get('form') == 'inplace-view':
         return inplace_view_fails(case)
     if case.get('op') == 'pow':
@@ -507,6 +509,8 @@ def run(ctx):
     systematic_utp_class(ctx)
     systematic_neutral(ctx)
     systematic_narrow_scalars(ctx)
+    systematic_intarr_pow(ctx)
+    systematic_pow_dtypes(ctx)
     for i in range(n):
         case = gen_pow(ctx.rng, ctx.tier) if i % 6 == 5 else gen_case(ctx.rng, ctx.tier)
         ctx.evaluations += 1
@@ -611,6 +615,49 @@ def systematic_narrow_scalars(ctx):
                     ctx.report(case, 'failure', res)
 
 
+def intarr_pow_fails(case):
+    """x ** r with r an ndarray of non-negative integers: entry by entry the power with the Python int r[i] (the product; tied
+    to the model by the scalar-exponent cases), whatever the container / integer dtype of the exponent, also at zero base points"""
+    x = np.array(case['x'])
+    r = np.array(case['r'], dtype=case['dtype'])
+    with np.errstate(all='ignore'):
+        try:
+            y = UTPM(x.copy()) ** r
+        except Exception as ex:
+            return 'intarr-pow-exception: x ** integer array raised %s' % (type(ex).__name__ + ':' + str(ex)[:80])
+        rb = np.broadcast_to(r, x.shape[2:])
+        if y.data.shape != x.shape:
+            return 'intarr-pow-shape: result shape %s for x of shape %s' % (y.data.shape, x.shape)
+        for idx in np.ndindex(*x.shape[2:]):
+            sel = (slice(None), slice(None)) + idx
+            want = (UTPM(x[sel].copy()) ** int(rb[idx])).data
+            if not np.allclose(y.data[sel], want, rtol=1e-12, atol=1e-13, equal_nan=False):
+                return 'intarr-pow: entry %s of x ** %s array differs from x[i] ** %d (base point %s): %s vs %s' % (
+                    idx, r.dtype, int(rb[idx]), x[0][(slice(None),) + idx].tolist(), y.data[sel].ravel().tolist()[:6], want.ravel().tolist()[:6])
+    return None
+
+
+def systematic_intarr_pow(ctx):
+    rng = ctx.rng
+    for dtype in ('int64', 'int32', 'uint8', 'bool'):
+        for rs in ('same', 'one', 'last'):
+            D, P = rng.randint(2, 4), rng.randint(1, 2)
+            s = rng.choice([(3,), (2, 3)])
+            x = rand_coeffs(rng, (D, P) + s, -2, 2)
+            x[0].reshape(P, -1)[:, 0] = 0.0
+            x[0].reshape(P, -1)[:, 1] = -0.75
+            shp = {'same': s, 'one': (1,), 'last': s[-1:]}[rs]
+            r = np.array([rng.choice([0, 1] if dtype == 'bool' else [0, 1, 2, 3, 4]) for _ in range(int(np.prod(shp)))]).reshape(shp)
+            if dtype != 'bool' and rs != 'one':
+                r.reshape(-1)[0] = 2
+            case = {'op': 'intarr-pow', 'D': D, 'P': P, 'x': x, 'r': r.tolist(), 'dtype': dtype}
+            ctx.evaluations += 1
+            ctx.count('pow:int-array')
+            res = intarr_pow_fails(case)
+            if res is not None:
+                ctx.report(case, 'failure', res)
+
+
 def systematic_pow(ctx):
     """every non-negative Python-int exponent at base points 0, negative and positive, D >= 2"""
     for v in list(range(0, 5)) + [7, 15, 16, 17, 24]:
@@ -631,6 +678,25 @@ def systematic_pow(ctx):
         res = dispatch(ctx, case)
         if res is not None:
             ctx.report(case, 'failure', res)
+
+
+def systematic_pow_dtypes(ctx):
+    """a narrow complex exponent polynomial (complex64) over a float64 base polynomial, positive and negative base points: the
+    result has NumPy's promoted dtype and double-precision coefficients, on every run"""
+    rng = ctx.rng
+    for neg in (False, True):
+        for D, P in ((2, 1), (3, 2)):
+            x = rand_coeffs(rng, (D, P, 2), -1, 1)
+            x[0] = rand_coeffs(rng, (P, 2), 0.5, 2.0) + 2.0 ** -30           # not representable in single precision
+            if neg:
+                x[0] = -x[0]
+            y = (np.round((rand_coeffs(rng, (D, P, 2), -1, 1) + 1j * rand_coeffs(rng, (D, P, 2), -1, 1)) * 8) / 8).astype(np.complex64)
+            case = {'op': 'pow', 'form': 'poly_exp', 'D': D, 'P': P, 'x': x, 'y': y}
+            ctx.evaluations += 1
+            ctx.count('op=pow', 'pow:systematic-dtypes')
+            res = dispatch(ctx, case)
+            if res is not None:
+                ctx.report(case, 'failure', res)
 
 
 def run_case_replay(ctx, case):
